@@ -17,6 +17,9 @@ SIM_TRUSTED = [
 def run_jobs(ctx, jobs, driver='Sim.lean', script='run_sim.py'):
     """jobs: list of (name, [profile, n]) or (name, ['replay', file]); returns per-job result dicts"""
     deep = int(os.environ.get('VERIF_DEPTH', '4'))
+    names = [j[0] for j in jobs]
+    if len(set(names)) != len(names):         # two workers would write into one directory
+        raise RuntimeError(f"duplicate job names: {sorted(n for n in set(names) if names.count(n) > 1)}")
 
     def one(j):
         name, args = j
